@@ -448,12 +448,13 @@ func runC10(c *ctx, r *Report) error {
 		os.WriteFile(filepath.Join(root, "bad", "action.yml"), []byte("name: bad\ninputs:\n  x:\n    description: d\nruns:\n  using: composite\n  steps:\n    - run: echo\n      shell: bash\n"), 0o644)
 		os.WriteFile(filepath.Join(root, "broken", "action.yml"), []byte("name: [unclosed\n"), 0o644)
 		os.WriteFile(filepath.Join(root, ".github", "workflows", "badwf.yml"), []byte("on:\n  workflow_call:\n    inputs: [a, b]\njobs: {}\n"), 0o644)
+		os.MkdirAll(filepath.Join(root, ".github", "workflows", "adir"), 0o755) // exists, but is not a readable file
 		mkCaller := func(withID bool) string {
 			id := ""
 			if withID {
 				id = "        id: s\n"
 			}
-			return "on: push\njobs:\n  j:\n    runs-on: ubuntu-latest\n    steps:\n      - uses: ./bad\n" + id + "      - uses: ./bad\n      - uses: ./broken\n  k:\n    uses: ./.github/workflows/badwf.yml\n  m:\n    uses: ./.github/workflows/missing.yml\n"
+			return "on: push\njobs:\n  j:\n    runs-on: ubuntu-latest\n    steps:\n      - uses: ./bad\n" + id + "      - uses: ./bad\n      - uses: ./broken\n  k:\n    uses: ./.github/workflows/badwf.yml\n  m:\n    uses: ./.github/workflows/missing.yml\n  n:\n    uses: ./.github/workflows/adir\n  o:\n    needs: [m, n]\n    runs-on: ubuntu-latest\n    steps:\n      - run: echo ${{ needs.m.outputs.x }} ${{ needs.n.outputs.y }}\n"
 		}
 		var dfiles []string
 		for i, withID := range []bool{true, false, true} {
@@ -465,7 +466,8 @@ func runC10(c *ctx, r *Report) error {
 			{"action-metadata-defect", "description is required in metadata"},
 			{"action-metadata-unparseable", "could not parse action metadata"},
 			{"reusable-workflow-unparseable", "error while parsing reusable workflow"},
-			{"reusable-workflow-missing", "could not read reusable workflow file"},
+			{"reusable-workflow-missing", "could not read reusable workflow file for \"./.github/workflows/missing.yml\""},
+			{"reusable-workflow-is-a-directory", "could not read reusable workflow file for \"./.github/workflows/adir\""},
 		}
 		reps := 6
 		if !c.quick {
@@ -515,7 +517,7 @@ func runC10(c *ctx, r *Report) error {
 				}
 			}
 		}
-		r.Rule += "; a third repository with defective callees (action metadata without description / unparseable, reusable workflow unparseable / missing) referenced from three files (steps with and without id:): each callee's own defect exactly once per run for every subset, order and GOMAXPROCS"
+		r.Rule += "; a third repository with defective callees (action metadata without description / unparseable, reusable workflow unparseable / missing / a directory; the callees are also referenced through needs.<job>.outputs) referenced from three files (steps with and without id:): each callee's own defect exactly once per run for every subset, order and GOMAXPROCS"
 	}
 	return nil
 }
